@@ -17,17 +17,17 @@ from mcx.ref import exprtable as X
 ID = 'C12'
 LEVEL = 'model_checking'
 ASSUMPTIONS = ['operand signatures transcribed from DWARF 5 table 7.9 and the GCC/LLVM extension descriptions (DW_OP_GNU_parameter_ref: 4-byte offset)',
-               'DW_OP_call_ref / implicit_pointer offsets are sized by the DWARF format (the v2 address-size rule is not generated)']
+               'DW_OP_call_ref / implicit_pointer offsets are sized by the DWARF format for structs of every version (what the library documents; GNU sizes implicit_pointer by the address in DWARF 2)']
 
 _PARSERS = {}
 
 
-def parser(p):
-    k = (p.le, p.fmt, p.addr)
+def parser(p, ver=5):
+    k = (p.le, p.fmt, p.addr, ver)
     if k not in _PARSERS:
         from elftools.dwarf.structs import DWARFStructs
         from elftools.dwarf.dwarf_expr import DWARFExprParser
-        _PARSERS[k] = DWARFExprParser(DWARFStructs(little_endian=p.le, dwarf_format=p.fmt, address_size=p.addr, dwarf_version=5))
+        _PARSERS[k] = DWARFExprParser(DWARFStructs(little_endian=p.le, dwarf_format=p.fmt, address_size=p.addr, dwarf_version=ver))
     return _PARSERS[k]
 
 
@@ -105,9 +105,9 @@ def to_model(nparsed):
     return ops
 
 
-def check_expr(ops, p, pad=0):
+def check_expr(ops, p, pad=0, ver=5):
     data = X.enc_expr(ops, p, pad)
-    got = guarded(lambda: norm(parser(p).parse_expr(list(data))))
+    got = guarded(lambda: norm(parser(p, ver).parse_expr(list(data))))
     exp = expected(ops, p, pad)
     fails = []
     if isinstance(got, Raised):
@@ -307,6 +307,22 @@ def _names_check(which):
     return fails, True, which
 
 
+# (5) the operand layout of an operation does not depend on the DWARF version the structs were made for (version 2 is the DEFAULT of DWARFStructs)
+def _ver_gen():
+    for pi in range(len(PARAMS)):
+        for code in sorted(X.OPS):
+            for ver in (2, 3, 4):
+                yield [pi, code, ver]
+
+
+def _ver_check(desc):
+    pi, code, ver = desc
+    p = PARAMS[pi]
+    ops = [X.representative(code, p), (0x96, []), X.representative(code, p)]
+    fails, data, out = check_expr(ops, p, 0, ver)
+    return fails, True, out, data + bytes([ver])
+
+
 def spaces(tier, seed):
     quick = tier == 'quick'
     pp = [0, 7, 2, 5] if quick else list(range(8))      # LSB/32/4, MSB/64/8, LSB/64/4, MSB/32/8 touch every parameter value
@@ -318,5 +334,7 @@ def spaces(tier, seed):
         BulkSpace('all-triples-subalphabet', _triple_part_factory(tp), 64, _replay, rule='all 24^3 triples over a sub-alphabet with one operation of every operand kind, parameter corners %r' % tp),
         BulkSpace('nesting-and-long', _nest_part, 32, _replay, rule='entry_value / GNU_entry_value nested to depth 1..3 around every inner pair over a 12-letter alphabet; the empty expression; 300-operation '
                   'programs and the program of all operations, on all 8 parameter corners'),
+        ListSpace('structs-version-independence', _ver_gen, _ver_check, nparts=16, rule='every operation with representative operands (op, nop, op) parsed through structs made for DWARF version 2 (the default), 3 and 4 '
+                  'x all 8 parameter corners: same operations, operands and offsets as the model'),
         ListSpace('names', _names_gen, _names_check, nparts=1, rule='opcode2name[name2opcode[n]] == n for every name except the range markers; every standard v2-v5 operation is named with its registry value'),
     ]
